@@ -96,6 +96,9 @@ type (
 		X    Expr
 		Name string
 		Args []Expr
+		// Impl, when set by the dialect's checkMethod, evaluates the call
+		// (default: GLSL .length()).
+		Impl func(ev *evaluator, m *Method) Value
 	}
 	// Convert is an implicit conversion inserted by the checker.
 	Convert struct {
@@ -124,6 +127,7 @@ const (
 	bmMatMat                   // matrix * matrix
 	bmWholeEq                  // == / != over the whole value
 	bmLogical                  // && || ^^
+	bmCustom                   // evaluated by Program.hooks.binary (dialect semantics, see hlsl_ext.go)
 )
 
 // TypeExpr is an unresolved type as written.
@@ -299,6 +303,11 @@ type Symbol struct {
 	CV       *Value
 	Builtin  builtinVar
 	Depth    int
+	// IsRef marks a C++ reference or pointer parameter (MSL `thread T&`,
+	// `device T*`): the parameter designates the argument's object; RefSlot
+	// indexes the per-call reference table of the evaluator.
+	IsRef   bool
+	RefSlot int
 }
 
 // GlobalVar is a module-scope variable (not an interface block member).
@@ -336,6 +345,7 @@ type Function struct {
 	callees    map[*Function]bool
 	def        *Function // for a prototype: its definition (once seen)
 	hasBarrier bool
+	RefCount   int // number of reference / pointer parameters (Dir "ref", "cref", "ptr")
 }
 
 // IfaceBlock is an interface block (GLSL buffer/uniform block; later: HLSL
@@ -364,4 +374,11 @@ type BlockMember struct {
 	Lay    *TypeLayout
 	Block  *IfaceBlock
 	Index  int
+}
+
+// refExpr is implemented by dialect expression nodes that designate an object
+// (MSL `&x`, `*p`): evalRef asks them for the reference.
+type refExpr interface {
+	Expr
+	refCustom(ev *evaluator) Ref
 }
